@@ -27,6 +27,7 @@ WITNESS = [
     (r"search_negamax_slice|search_quiescence_slice", "engine_core", "inkayaku_engine_core", "c09_interrupted_search.rs", "witness_c09"),
     (r"attacks::Bitboard::", "board", "inkayaku_board", "c05_check_detection.rs", "witness_c05"),
     (r"hashtable::HashTable::", "append:engine_core/src/engine/table.rs", "inkayaku_engine_core", "c18_fifo_map.rs", "verif_witness_c18"),
+    (r"hashes::", "board", "inkayaku_board", "c06_hashes.rs", "witness_c06"),
     (r"lemma_shipped_thresholds|Heuristic::evaluate", "append:engine_core/src/engine/heuristic/simple.rs", "inkayaku_engine_core", "c10_fifty_move.rs", "verif_witness_c10"),
 ]
 
@@ -68,7 +69,7 @@ def build_replay(prop, v, path):
                 rc, out, cmd = run_witness(*w)
                 rep["witness"] = {"file": "witness/" + w[2], "cmd": cmd, "exit": rc, "output": out}
                 fails = re.findall(r"test (\S+) \.\.\. FAILED", out) or re.findall(r"---- (\S+) stdout ----", out)
-                if rc != 0 and "test result: FAILED" in out:
+                if rc != 0 and ("test result: FAILED" in out or "FAILING-INPUT:" in out):
                     found = True
                     rep["witness"]["failing_tests"] = sorted(set(fails))
                     m = re.findall(r"FAILING-INPUT: (.*)", out)
